@@ -340,7 +340,7 @@ class Context:
             self._stats['driver_serialize_task_context'] += time.perf_counter() - t_start
 
             t_start = time.perf_counter()
-            serialized_partition = self._data_deserializer(partition)
+            serialized_partition = self._data_serializer(partition)
             self._stats['driver_serialize_data'] += time.perf_counter() - t_start
 
             return (
